@@ -184,7 +184,7 @@ def select(prop, thorough, rng):
         defs += [stale_family(rng, 'se%d' % j, eof=True) for j in range(nrand // 2 + 2)]
     elif prop == 'C06':
         defs = pick('C06', 'rewind')
-        defs += [loc_def(rng, 'lo%d' % j) for j in range(nrand)]
+        defs += [loc_def(rng, 'lo%d' % j, text=(j % 2 == 0)) for j in range(nrand)]
         defs += [stale_family(rng, 'st%d' % j) for j in range(nrand // 2)]
     elif prop == 'C07':
         defs = pick('C07', 'C01', 'C04')
@@ -207,6 +207,11 @@ def select(prop, thorough, rng):
         defs += [dyn_def(rng, 'da%d' % j) for j in range(nrand)]
         defs += [F.rand_def(rng, 'ak%d' % j, kinds=['ret', 'cont', 'rcont', 'skip', 'tok', 'sw', 'swret'], ctx_p=0.1, eof_p=0.1, tags=['C10']) for j in range(nrand // 2)]
         defs += [stale_family(rng, 'st%d' % j) for j in range(nrand // 2 + 3)]
+        defs += [fdyn_def(rng, 'fa%d' % j, logging=True) for j in range(nrand // 3)]
+    elif prop == 'C13':
+        defs = builtin_defs(thorough)
+        variants = ((False, False),)
+        N = 1
     elif prop in ('C14', 'C15'):
         defs = pick('C03', 'C05', 'C07', 'C10', 'rewind')
         defs += [F.rand_def(rng, 'cc%d' % j, ctx_p=0.1, eof_p=0.1, tags=[prop]) for j in range(nrand // 2)]
@@ -216,7 +221,36 @@ def select(prop, thorough, rng):
     else:
         raise ValueError(prop)
     defs = [d for d in uniq(defs) if d.wellformed()]
+    if thorough and prop in ('C01', 'C03', 'C05', 'C06', 'C08', 'C09', 'C10'):
+        # cross-check of the inductive argument on real histories: whole-stream runs (up to 4 calls) from the
+        # constructor state, all calls sharing the same <= N characters
+        variants = tuple(variants) + ((False, False, 4),)
     return defs, N, variants
+
+
+BUILTIN_NAMES = ['alphabetic', 'alphanumeric', 'ascii', 'ascii_alphabetic', 'ascii_alphanumeric', 'ascii_control', 'ascii_digit', 'ascii_graphic',
+                 'ascii_hexdigit', 'ascii_lowercase', 'ascii_punctuation', 'ascii_uppercase', 'ascii_whitespace', 'control', 'lowercase', 'numeric',
+                 'uppercase', 'whitespace', 'XID_Start', 'XID_Continue']
+BIG_BUILTINS = {'alphabetic', 'alphanumeric', 'lowercase', 'numeric', 'uppercase', 'XID_Start', 'XID_Continue'}
+
+
+def builtin_defs(thorough):
+    """one lexer per built-in name: `$$name = 0, _ = 1` (name -> table mapping, table conversion, guard chain or
+    binary-search table), plus combinations with other classes"""
+    out = []
+    quick_big = {'numeric', 'lowercase'}
+    for n in BUILTIN_NAMES:
+        if n in BIG_BUILTINS and not thorough and n not in quick_big:
+            continue
+        # `$$name` alone compiles to one arm per range (accepting transition); `$$name+` keeps a non-terminal target
+        # state, which is where guard chains (<= 9 ranges) and binary-search tables (> 9 ranges) are generated
+        out.append(Def('bi_' + n, [('Init', [Rule(plus(bi(n)), 'tok'), Rule(ANY, 'tok')])], tags=['builtin', 'C13'], nmax=1))
+        if n not in BIG_BUILTINS or thorough:
+            out.append(Def('bj_' + n, [('Init', [Rule(bi(n), 'tok'), Rule(cat(bi(n), ch('!')), 'tok'), Rule(ANY, 'tok')])], tags=['builtin', 'C13'], nmax=2 if n not in BIG_BUILTINS else 1))
+    out.append(Def('bi_combo1', [('Init', [Rule(diff(bi('ascii_alphanumeric'), cs(('a', 'f'), '0')), 'tok'), Rule(alt(bi('ascii_digit'), bi('ascii_punctuation')), 'tok'), Rule(ANY, 'tok')])], tags=['builtin', 'C13'], nmax=1))
+    out.append(Def('bi_combo2', [('Init', [Rule(diff(bi('numeric'), bi('ascii_digit')), 'tok'), Rule(cat(bi('ascii_uppercase'), bi('ascii_lowercase')), 'tok'), Rule(ANY, 'tok')])], tags=['builtin', 'C13'], nmax=2))
+    out.append(Def('bi_ws_ctx', [('Init', [Rule(ch('a'), 'tok', ctx=bi('whitespace')), Rule(ch('a'), 'tok', ctx=bi('numeric')), Rule(ANY, 'tok')])], tags=['builtin', 'C13'], nmax=2))
+    return out
 
 
 def dyn_def(rng, name):
@@ -248,7 +282,7 @@ def dyn_def(rng, name):
     return Def(name, sets, tags=['dyn'])
 
 
-def fdyn_def(rng, name):
+def fdyn_def(rng, name, logging=False):
     rules = []
     for _ in range(rng.randrange(2, 5)):
         r = F.rand_rule_regex(rng, 2)
@@ -257,11 +291,11 @@ def fdyn_def(rng, name):
             rng.shuffle(choices)
             rules.append(Rule(r, 'fdyn', choices=choices))
         else:
-            rules.append(Rule(r, rng.choice(['fok', 'ferr', 'skip', 'tok'])))
+            rules.append(Rule(r, rng.choice(['fok', 'ferr', 'skip', 'tok'] if not logging else ['fok', 'ferr', 'ferr', 'fcont', 'fok'])))
     return Def(name, [('Init', rules)], tags=['fdyn'])
 
 
-def loc_def(rng, name):
+def loc_def(rng, name, text=False):
     """rules over newline / tab / multi-byte / wide / zero-width characters with rewinds"""
     pool = [ch('\n'), ch('\t'), ch('a'), ch(0xE9), ch(0x4E2D), ch(0x301), ch(0x1F600), ANY, cs(('a', 'c')), cs('\n', '\t', ' '),
             diff(ANY, cs('\n', 'a')), cs((0x4E00, 0x9FFF))]
@@ -272,7 +306,7 @@ def loc_def(rng, name):
         if rng.random() < 0.3:
             parts[rng.randrange(n)] = plus(parts[0])
         r = cat(*parts) if n > 1 else parts[0]
-        kind = rng.choice(['ret', 'ret', 'tok', 'skip', 'cont', 'rcont'])
+        kind = rng.choice(['ret', 'ret', 'tok', 'skip', 'cont', 'rcont', 'mret', 'mret'] if text else ['ret', 'ret', 'tok', 'skip', 'cont', 'rcont'])
         rules.append(Rule(r, kind))
     return Def(name, [('Init', rules)], tags=['loc'])
 
@@ -288,6 +322,7 @@ NONTRIVIAL = {
     'C08': (['invalid'], 'a failure (InvalidToken) was produced'),
     'C09': (['token'], 'a token was produced'),
     'C10': (['token'], 'an action ran and a token was produced'),
+    'C13': (['token'], 'a token was produced'),
     'C14': (['token'], 'all four constructors were executed'),
     'C15': (['token'], 'a clone was taken after a token'),
 }
